@@ -933,17 +933,17 @@ Proof.
 Qed.
 
 (* Register: the unregistered dedicated allocations (all of list lr) are appended to the dedicated list *)
-Lemma VamInvU_register c v v' U X lr :
-  VamInvU c v U X -> NoDup U -> (forall s, In s U -> a_lref (get_alloc v s) = lr) ->
+Lemma VamInvU_register c v v' U A X lr :
+  VamInvU c v U X -> NoDup A -> (forall s, In s A <-> In s U) -> (forall s, In s U -> a_lref (get_alloc v s) = lr) ->
   (forall lr1, get_blist v' lr1 = get_blist v lr1) -> v_tab v' = v_tab v -> v_m v' = v_m v ->
   length (v_lists v') = length (v_lists v) -> length (v_ded v') = length (v_ded v) ->
   map p_uid (v_pools v') = map p_uid (v_pools v) -> map p_id (v_pools v') = map p_id (v_pools v) ->
   v_next_uid v' = v_next_uid v -> v_next_pool_id v' = v_next_pool_id v ->
-  get_dedlist v' lr = get_dedlist v lr ++ U ->
+  get_dedlist v' lr = get_dedlist v lr ++ A ->
   (forall lr1, lr1 <> lr -> get_dedlist v' lr1 = get_dedlist v lr1) ->
   VamInvU c v' [] X.
 Proof.
-  intros HI HndU HUlr Hg' Htab Hm Hll Hdl Hpu Hpi Hnu Hnp Hd1 Hd2. inv_fields HI.
+  intros HI HndU HAU HUlr Hg' Htab Hm Hll Hdl Hpu Hpi Hnu Hnp Hd1 Hd2. inv_fields HI.
   assert (Hsl : forall s a, slot_is v' s a <-> slot_is v s a) by (intros; unfold slot_is; rewrite Htab; tauto).
   assert (Hdin : forall lr1 s, In s (get_dedlist v lr1) -> In s (get_dedlist v' lr1)).
   { intros lr1 s H. destruct (lref_eq_dec lr1 lr) as [->|Hne]; [rewrite Hd1; apply in_app_iff; auto|rewrite Hd2; auto]. }
@@ -969,7 +969,7 @@ Proof.
     + left. split; [auto|]. exists l1, b1, rg. rewrite Hg'. exact R.
     + right. split; [auto|]. split; [|split].
       * left. destruct R1 as [R1|R1]; [apply Hdin; auto|].
-        specialize (HUlr _ R1). rewrite (get_alloc_slot _ _ _ S) in HUlr. rewrite HUlr, Hd1. apply in_app_iff. auto.
+        specialize (HUlr _ R1). rewrite (get_alloc_slot _ _ _ S) in HUlr. rewrite HUlr, Hd1. apply in_app_iff. right. apply HAU. auto.
       * destruct R2 as (l1 & R2). exists l1. rewrite Hg'. auto.
       * rewrite Hm. exact R3.
   - intros lr1 l b rg. rewrite Hg'. intros G B R. destruct (I_tg _ _ _ _ G B R) as (s1 & a1 & T1 & T2 & T3).
@@ -977,11 +977,11 @@ Proof.
   - intros lr1 s Hin. destruct (lref_eq_dec lr1 lr) as [->|Hne].
     + rewrite Hd1 in Hin. apply in_app_iff in Hin. destruct Hin as [Hin|Hin].
       * destruct (I_dd _ _ Hin) as (a & R1 & R). exists a. split; [apply Hsl; auto|auto].
-      * destruct (I_ur _ Hin) as (a & R1 & R2 & R3). exists a. split; [apply Hsl; auto|]. split; [auto|].
+      * apply HAU in Hin. destruct (I_ur _ Hin) as (a & R1 & R2 & R3). exists a. split; [apply Hsl; auto|]. split; [auto|].
         specialize (HUlr _ Hin). rewrite (get_alloc_slot _ _ _ R1) in HUlr. auto.
     + rewrite Hd2 in Hin by auto. destruct (I_dd _ _ Hin) as (a & R1 & R). exists a. split; [apply Hsl; auto|auto].
   - intros lr1. destruct (lref_eq_dec lr1 lr) as [->|Hne]; [|rewrite Hd2; auto].
-    rewrite Hd1. apply NoDup_app_intro_z; auto. intros s H1 H2. destruct (I_ur _ H2) as (a & R1 & R2 & R3).
+    rewrite Hd1. apply NoDup_app_intro_z; auto. intros s H1 H2. apply HAU in H2. destruct (I_ur _ H2) as (a & R1 & R2 & R3).
     specialize (HUlr _ H2). rewrite (get_alloc_slot _ _ _ R1) in HUlr. rewrite HUlr in R3. auto.
   - intros s [].
   - intros s Hin. destruct (I_dg _ Hin) as (a & R1 & R). exists a. split; [apply Hsl; auto|auto].
@@ -1161,4 +1161,16 @@ Proof.
   - inversion Hnd as [|? ? Hx Hr]; subst. destruct (bk_id x =? bk_id b) eqn:E.
     + exfalso. apply Hx. apply Z.eqb_eq in E. rewrite E, map_app. apply in_app_iff. right. left. reflexivity.
     + rewrite IH; auto.
+Qed.
+
+Lemma mems_same_remove_added ms ms2 d :
+  mems_same (ms ++ [d]) ms2 -> (forall x, In x ms -> dm_id x <> dm_id d) -> mems_same ms (remove_mem ms2 (dm_id d)).
+Proof.
+  unfold mems_same. revert ms2. induction ms as [|x ms IH]; intros ms2 H Hf; cbn in *.
+  - destruct ms2 as [|y [|z t]]; cbn in H; try discriminate. injection H as H. cbn.
+    assert (dm_id y = dm_id d) by (unfold mem_key in H; congruence). rewrite H0, Z.eqb_refl. reflexivity.
+  - destruct ms2 as [|y ms2]; cbn in H; [discriminate|]. injection H as Hk Hr. cbn.
+    assert (E : dm_id y = dm_id x) by (unfold mem_key in Hk; congruence).
+    destruct (dm_id y =? dm_id d) eqn:Ey; [apply Z.eqb_eq in Ey; exfalso; apply (Hf x); [left; reflexivity|congruence]|].
+    cbn. rewrite Hk. f_equal. apply IH; auto.
 Qed.
